@@ -73,6 +73,8 @@ def cases(ctx):
         r = ctx.rng("C05twice", j)
         c = gen.rand_circuit(r, n_in=r.randint(2, 4), n_gates=r.randint(3, 9), max_fanin=3)
         yield {"op": "insert_registers", "c": proj(c), "k": r.choice([1, 2]), "twice": True, "src": "TWICE"}
+        # another suffix for the inserted q nets: the requested name may exist already (n1 + "" + "2" = n12), uid then picks another
+        yield {"op": "insert_registers", "c": proj(c), "k": r.choice([1, 2]), "qs": r.choice(["", "_", "_q_"]), "src": "QSUF"}
     # FO: one driver (input / gate / inverter / output gate) with fan-out 1..9, k = 2..5
     for drv in ("input", "and", "not", "outgate", "const"):
         for m in range(1, 10):
@@ -133,7 +135,10 @@ def run_case(case, ctx):
             if case.get("latch"):   # a cell with d and q only: no other io to connect (explicit empty map)
                 r = cg.tx.insert_registers(c, case["k"], ff=cg.BlackBox("lat", ["d"], ["q"]), other_flop_io={})
             else:
-                r = cg.tx.insert_registers(c, case["k"])
+                if case.get("qs") is not None:
+                    r = cg.tx.insert_registers(c, case["k"], q_suffix=case["qs"])
+                else:
+                    r = cg.tx.insert_registers(c, case["k"])
                 if case.get("twice"):
                     # the same argument again: the first call must not have left anything behind (in the argument or elsewhere)
                     r2 = cg.tx.insert_registers(c, case["k"])
@@ -143,6 +148,8 @@ def run_case(case, ctx):
         exc = type(e).__name__
     ev = {"kind": case["op"], "k": case["k"], "c": case["c"], "exc": exc, "r": proj(r) if r is not None else {},
           "latch": bool(case.get("latch"))}
+    if case.get("qs") is not None:
+        ev["qs"] = case["qs"]
     if case["op"] == "insert_registers":
         ev["rt"] = {}
         if r is not None:
